@@ -33,3 +33,17 @@ func (b *BlockWise[C]) VerifShiftDeadlines(d time.Duration) {
 		return true
 	})
 }
+
+// VerifReceivingMessages returns, per token hash, the partially received message stored in the
+// receiving cache (read-only view for the verification harness, which uses the pointer as the
+// identity of the message; the entries and their deadlines are not touched; -tags verif only).
+func (b *BlockWise[C]) VerifReceivingMessages() map[uint64]*pool.Message {
+	r := map[uint64]*pool.Message{}
+	b.receivingMessagesCache.Range(func(k uint64, e *cache.Element[*messageGuard]) bool {
+		if g := e.Data(); g != nil {
+			r[k] = g.Message
+		}
+		return true
+	})
+	return r
+}
